@@ -78,7 +78,7 @@ enum Via {
     Let,
 }
 
-fn run_batch(out: &mut CaseOut, w: usize, vals: &[i64], via: &[Via], zx_row: bool, layout_stream: &[u32]) {
+fn run_batch(out: &mut CaseOut, w: usize, vals: &[i64], via: &[Via], zx_row: bool, layout_stream: &[u32], fail_at: Option<usize>) {
     let w2 = if w > 32 { w - 29 } else { w + 29 };
     let sigs = vec![
         Sig { name: "I".into(), bits: w, kind: Kind::In(InVal::Val(0)) },
@@ -127,12 +127,14 @@ fn run_batch(out: &mut CaseOut, w: usize, vals: &[i64], via: &[Via], zx_row: boo
     }
     let prog = Program { header, stmts };
     let text = render(&program_lines(&prog), &mut Ch::new(layout_stream), LayoutOpts::CANON).text;
-    let spec = DriverSpec::honest(&sigs, 7, Palette::Small);
-    render_case(out, &text, &sigs, None);
+    let mut spec = DriverSpec::honest(&sigs, 7, Palette::Small);
+    // the driver may fail on one row's call; the caller goes on
+    spec.fail_at = fail_at;
+    render_case(out, &text, &sigs, Some(&spec));
     let Some(tc) = load_wellformed(out, "c07", &text, &sigs) else {
         return;
     };
-    let real = run_real(&tc, &sigs, &spec, &RunOpts { max_next: row_vals.len() + 1, ..Default::default() });
+    let real = run_real(&tc, &sigs, &spec, &RunOpts { max_next: row_vals.len() + 1, continue_after_driver_error: true, ..Default::default() });
     if let Some(c) = &real.ctor {
         match c {
             RealItem::Panic(p) => out.fail(p.key(), format!("constructor panicked: {p}")),
@@ -140,10 +142,21 @@ fn run_batch(out: &mut CaseOut, w: usize, vals: &[i64], via: &[Via], zx_row: boo
         }
         return;
     }
+    let mut after_failure = false;
     for (k, rv) in row_vals.iter().enumerate() {
         let item = real.items.get(k);
+        let failed_row;
         let row = match item {
-            Some(RealItem::Row(r)) => r,
+            Some(RealItem::Row(r)) => {
+                out.class_if(after_failure, "row-after-driver-failure");
+                r
+            }
+            // the row whose call the driver failed: what the driver received is still judged
+            Some(RealItem::DriverErr(_)) if fail_at == Some(k + 1) && real.log.len() > k + 1 => {
+                after_failure = true;
+                failed_row = RealRow { inputs: real.log[k + 1].inputs.clone(), outputs: vec![], failing: vec![], line: 0 };
+                &failed_row
+            }
             Some(RealItem::Panic(p)) => {
                 out.fail(p.key(), format!("width {w}, value {rv:?}: next() panicked: {p}"));
                 return;
@@ -170,6 +183,9 @@ fn run_batch(out: &mut CaseOut, w: usize, vals: &[i64], via: &[Via], zx_row: boo
                             return;
                         }
                     }
+                }
+                if row.outputs.is_empty() && fail_at == Some(k + 1) {
+                    continue;
                 }
                 for n in ["O", "B"] {
                     if get_exp(n) != Some(ExpVal::Val(want)) {
@@ -205,6 +221,7 @@ fn run_batch(out: &mut CaseOut, w: usize, vals: &[i64], via: &[Via], zx_row: boo
                     return;
                 }
             }
+            None if row.outputs.is_empty() && fail_at == Some(k + 1) => {}
             None => {
                 let ok = get_in(sent, "I") == Some(InVal::Z)
                     && get_in(sent, "B") == Some(InVal::Z)
@@ -230,7 +247,7 @@ impl Property for C07 {
         "C07"
     }
     fn rule(&self) -> &'static str {
-        "profile `width`: (a) exhaustive sweep of every width 1..=64 x a 40-value boundary pool (0, +-1, MIN, MAX, 2^w-1, 2^w, 2^w+1, -2^w, 2^(w-1), ...) delivered directly / through arithmetic / through let, 8 values per program, on an input column, an output's expected column, a bidirectional signal's input and `_out` column and a virtual signal's column, plus a `Z x z Z X` row; (b) random (width, 64-bit value) pairs. Oracle: value & (2^w-1) in u64 (w=64 unchanged) against the input as received by the driver, row.inputs and the expected values; virtual column keeps 64 bits. Non-trivial: w >= 33 or the value has bits above w; distinct by (width, values, path)."
+        "profile `width`: (a) exhaustive sweep of every width 1..=64 x a 40-value boundary pool (0, +-1, MIN, MAX, 2^w-1, 2^w, 2^w+1, -2^w, 2^(w-1), ...) delivered directly / through arithmetic / through let, 8 values per program, on an input column, an output's expected column, a bidirectional signal's input and `_out` column and a virtual signal's column, plus a `Z x z Z X` row; (b) random (width, 64-bit value) pairs, values returning to the one two rows earlier (v, w, v), in a third of the programs the driver fails on one row's call and the caller goes on. Oracle: value & (2^w-1) in u64 (w=64 unchanged) against the input as received by the driver, row.inputs and the expected values; virtual column keeps 64 bits. Non-trivial: w >= 33 or the value has bits above w; distinct by (width, values, path)."
     }
     fn cases(&self, tier: Tier) -> u64 {
         match tier {
@@ -253,11 +270,12 @@ impl Property for C07 {
         v
     }
     fn required_classes(&self) -> Vec<&'static str> {
-        vec!["width=64", "width=63", "width=1", "width>=33", "bits-above-width", "negative"]
+        vec!["width=64", "width=63", "width=1", "width>=33", "bits-above-width", "negative", "row-after-driver-failure"]
     }
     fn run(&self, s: &Streams) -> CaseOut {
         let mut out = CaseOut::new();
         let mut ch = Ch::new(&s[0]);
+        let mut fail_at = None;
         let (w, vals, via, zx) = if s[0].first() == Some(&SWEEP_MAGIC) {
             ch.raw();
             let w = (ch.raw() as usize).clamp(1, 64);
@@ -277,7 +295,14 @@ impl Property for C07 {
             let n = 1 + ch.upto(BATCH);
             let mut vals = vec![];
             let mut via = vec![];
-            for _ in 0..n {
+            for k in 0..n {
+                // return to the value of the row before the previous one (v, w, v)
+                if k >= 2 && ch.chance(1, 3) {
+                    let v = vals[k - 2];
+                    vals.push(v);
+                    via.push([Via::Direct, Via::Arith, Via::Let][ch.upto(3)]);
+                    continue;
+                }
                 let v = match ch.weighted(&[5, 2, 2]) {
                     0 => ch.u64() as i64,
                     1 => {
@@ -293,7 +318,11 @@ impl Property for C07 {
                 vals.push(v);
                 via.push([Via::Direct, Via::Arith, Via::Let][ch.upto(3)]);
             }
-            (w, vals, via, ch.chance(1, 4))
+            let zx = ch.chance(1, 4);
+            if ch.chance(1, 3) {
+                fail_at = Some(1 + ch.upto(n));
+            }
+            (w, vals, via, zx)
         };
         out.class_if(w == 64, "width=64");
         out.class_if(w == 63, "width=63");
@@ -303,7 +332,7 @@ impl Property for C07 {
         out.class_if(above, "bits-above-width");
         out.class_if(vals.iter().any(|v| *v < 0), "negative");
         out.nontrivial = w >= 33 || above;
-        run_batch(&mut out, w, &vals, &via, zx, &s[1]);
+        run_batch(&mut out, w, &vals, &via, zx, &s[1], fail_at);
         out
     }
 }
